@@ -32,8 +32,8 @@ def _drive(args, wd, out_name, env=None):
         return json.load(f)
 
 
-def _drive_seq_parallel(seq_path, wd, tier, nproc=12):
-    """The sequential family is embarrassingly parallel: split the case file and run one driver per chunk."""
+def _drive_seq_parallel(seq_path, wd, tier, nproc=12, mode="seq"):
+    """The sequential families are embarrassingly parallel: split the case file and run one driver per chunk."""
     from concurrent.futures import ThreadPoolExecutor
     outs = [open(os.path.join(wd, f"seq{i}.ndjson"), "w") for i in range(nproc)]
     with open(seq_path) as f:
@@ -44,7 +44,7 @@ def _drive_seq_parallel(seq_path, wd, tier, nproc=12):
     os.remove(seq_path)
 
     def one(i):
-        return _drive(["seq", os.path.join(wd, f"seq{i}.ndjson")], wd, f"seq{i}.json", env={"VERIF_TIER": tier})
+        return _drive([mode, os.path.join(wd, f"seq{i}.ndjson")], wd, f"seq{i}.json", env={"VERIF_TIER": tier})
 
     with ThreadPoolExecutor(max_workers=nproc) as ex:
         parts = list(ex.map(one, range(nproc)))
@@ -52,9 +52,12 @@ def _drive_seq_parallel(seq_path, wd, tier, nproc=12):
     for k in ("cases", "calls", "n_disagree", "nontrivial", "reference_skipped_self_rename"):
         merged[k] = sum(p.get(k, 0) for p in parts)
     merged["per_store"] = {}
+    merged["per_observation"] = {}
     for p in parts:
         for st, n in (p.get("per_store") or {}).items():
             merged["per_store"][st] = merged["per_store"].get(st, 0) + n
+        for st, n in (p.get("per_observation") or {}).items():
+            merged["per_observation"][st] = merged["per_observation"].get(st, 0) + n
     merged["disagreements"] = [d for p in parts for d in p["disagreements"]]
     merged["samples"] = [x for p in parts for x in p.get("samples", [])][:4]
     for i in range(nproc):
@@ -76,6 +79,15 @@ def run(tier):
     seq_path, n_seq = _cases(res, wd, "seq")
     seq = _drive_seq_parallel(seq_path, wd, tier) if n_seq > 200000 else \
         _drive(["seq", seq_path], wd, "seq.json", env={"VERIF_TIER": tier})
+    # family ext: every reachable state (multipart, nested keys) x the battery of observations
+    # one worker: strict breadth-first order, so that the VIEW keeps the SHORTEST witness of every state
+    res = vlib.run_tlc("MC_ObjStoreExt", f"MC_ObjStoreExt_{tier}.cfg", wd, workers=1, timeout=2400, heap="12g", out_name="ext.out")
+    tlc["ext"] = {"states": res["states"], "transitions": res["generated"]}
+    ext_path, n_ext = _cases(res, wd, "ext")
+    ext = _drive_seq_parallel(ext_path, wd, tier, mode="ext") if n_ext > 1500 else \
+        _drive(["ext", ext_path], wd, "ext.json", env={"VERIF_TIER": tier})
+    if os.path.exists(ext_path):
+        os.remove(ext_path)
     res = vlib.run_tlc("MC_ObjStore", f"MC_ObjStore_conc_{tier}.cfg", wd, workers=12, timeout=2400, heap="12g", out_name="conc.out")
     tlc["conc"] = {"states": res["states"], "transitions": res["generated"]}
     conc_path, n_conc = _cases(res, wd, "conc")
@@ -83,25 +95,31 @@ def run(tier):
     rng = _drive(["ranges"], wd, "ranges.json")
 
     # a disagreement on the reference itself is a bug of the specification, not of the code
-    if seq["per_store"].get("InMemory"):
-        d = [x for x in seq["disagreements"] if x["store"] == "InMemory"][:3]
+    if seq["per_store"].get("InMemory") or ext["per_store"].get("InMemory"):
+        d = [x for x in seq["disagreements"] + ext["disagreements"] if x["store"] == "InMemory"][:3]
         print(json.dumps(d)[:2000])
         raise vlib.ToolError("ObjStore.tla disagrees with the reference store object_store::memory::InMemory")
-    for fam, out in (("seq", seq), ("conc", conc), ("ranges", rng)):
+    for fam, out in (("seq", seq), ("ext", ext), ("conc", conc), ("ranges", rng)):
         if out["n_disagree"]:
             vlib.violation(PROP, {"property": PROP, "family": fam, "total": out["n_disagree"],
                                   "per_store": out.get("per_store"), "disagreements": out["disagreements"][:40]})
             n_viol += out["n_disagree"]
     cov = {
-        "states": tlc["seq"]["states"] + tlc["conc"]["states"],
-        "transitions": tlc["seq"]["transitions"] + tlc["conc"]["transitions"],
-        "traces_validated_against_impl": seq["cases"] * (len(seq["stores"]) - 1) + conc["schedules"],
-        "evaluations": seq["calls"] + conc["schedules"] + rng["evaluations"],
-        "distinct_nontrivial": seq["nontrivial"] + conc["nontrivial"],
+        "states": tlc["seq"]["states"] + tlc["ext"]["states"] + tlc["conc"]["states"],
+        "transitions": tlc["seq"]["transitions"] + tlc["ext"]["transitions"] + tlc["conc"]["transitions"],
+        "traces_validated_against_impl": (seq["cases"] + ext["cases"]) * (len(seq["stores"]) - 1) + conc["schedules"],
+        "evaluations": seq["calls"] + ext["calls"] + conc["schedules"] + rng["evaluations"],
+        "distinct_nontrivial": seq["nontrivial"] + ext["nontrivial"] + conc["nontrivial"],
         "rule": "seq: every call sequence of length N over 2 keys (one nested under the other) x 2 values x all put "
                 "modes / token references (current, stale, foreign, never issued) / get+head preconditions / delete / copy "
-                "/ rename incl. self-rename, executed on InMemory (validates the spec), MetaStore and EncryptedStore with "
-                "warm and cold metadata caches and several chunk sizes; non-trivial = at least two commits. conc: every "
+                "/ rename incl. self-rename / multipart complete and abort, executed on InMemory (validates the spec), MetaStore and EncryptedStore with "
+                "warm and cold metadata caches and several chunk sizes; non-trivial = at least two commits. ext: EVERY state of ObjStoreExt.tla reachable by <= N building calls "
+                "(put, multipart complete/abort, delete, copy, rename) over 4 nested keys (a, a/b, a/b/c, ab), and in "
+                "each of them a battery of ~300 observations with the expected answers: get/head under if_(un)modified_"
+                "since before/at/after the commit's timestamp, both dates, token LISTS, '*', and the precedence rules "
+                "of combined conditions; list(prefix), list_with_offset(prefix, offset), list_with_delimiter(prefix) for "
+                "6 prefixes / 5 offsets; every listed entry must report what head reports (size, token, timestamp); "
+                "non-trivial = at least two keys present. conc: every "
                 "pair of calls on one key after every prefix, ALL interleavings of their inner-store calls (capped), "
                 "outcome must be that of a sequential order (rename = copy + delete); non-trivial = the orders differ. "
                 "ranges: every bounded/offset/suffix range and multi-range read over sizes around chunk multiples",
@@ -109,6 +127,7 @@ def run(tier):
         "exhaustive": True,
         "stores": seq["stores"],
         "seq": {k: seq[k] for k in ("cases", "calls", "n_disagree", "reference_skipped_self_rename")},
+        "ext": {k: ext[k] for k in ("cases", "calls", "n_disagree", "per_observation")},
         "conc": {k: conc[k] for k in ("cases", "schedules", "n_disagree")},
         "ranges": {k: rng[k] for k in ("evaluations", "n_disagree")},
         "tlc": tlc,
@@ -116,7 +135,10 @@ def run(tier):
     vlib.write_evidence(PROP, tier, "model_checking", cov, time.time() - t0, n_viol, assumptions=[
         "delete of a missing key: Ok (reference) and NotFound (wrappers) are both accepted",
         "object versions are not compared (documented absence); timestamps only for consistency between head and put",
-        "multipart uploads and date preconditions are not enumerated yet",
+        "date preconditions are relative to the timestamp each store itself reports for the commit (+-1 s); "
+        "if_(un)modified_since are not raced against writers",
+        "multipart uploads: two parts, complete or abort; parts are not interleaved with other calls on the key "
+        "except in the conc family (complete vs put/get/delete/copy/rename)",
     ])
     vlib.cleanup(wd)
     return n_viol
